@@ -19,3 +19,23 @@ def apply(ctx, W):
         "match *self { Expr::StringLiteral(v) => r is Some && r->0@ == v@, _ => r is None }"])
     fn_into_verus(ctx, fw, "ItemPath::len", ret="r", tags=U, ensures=["r == self.0@.len()"])
     fn_into_verus(ctx, fw, "ItemPath::is_empty", ret="r", tags=U, ensures=["r == (self.0@.len() == 0)"])
+    # ItemPath::join / parent: verified against the path vocabulary (they used to be assumed contracts)
+    fj, uj = fn_into_verus(ctx, fw, "ItemPath::join", ret="r", tags=U + ("C19",), ensures=["r == spec_join(*self, segment.0@)"])
+    rules.ghost(ctx, fw, uj, fj["block_span"][0] + 1, "let ghost seg0 = segment;")
+    rules.bind_tail(ctx, fw, uj, fj, "joined", """proof {
+            assert(joined.0@ =~= self.0@.push(seg0));
+            assert(path_view(joined) =~= path_view(*self).push(seg0.0@));
+            axiom_spec_join(*self, seg0.0@);
+            axiom_path_ext(joined, spec_join(*self, seg0.0@));
+        }""", tags=U)
+    fp, up = fn_into_verus(ctx, fw, "ItemPath::parent", ret="r", tags=U + ("C19",), ensures=["r == spec_parent(*self)"])
+    cp = rules.closure_of_call(fw, fp, "then")
+    rules.closure_annot(ctx, fw, up, cp, ret="q: ItemPath", requires=["self.0@.len() > 0"], ensures=["q.0@ =~= self.0@.drop_last()"], tags=U)
+    rules.bind_tail(ctx, fw, up, fp, "par", """proof {
+            axiom_spec_parent(*self);
+            if self.0@.len() > 0 {
+                let q = par->0;
+                assert(path_view(q) =~= path_view(*self).drop_last());
+                axiom_path_ext(q, spec_parent(*self)->0);
+            }
+        }""", tags=U)
